@@ -88,6 +88,7 @@ def _feed(ctx, evs, first):
     except OutOfDomain:
         return None, out, 'ood'
     except Exception as e:      # noqa
+        __import__('vxlib.symx.core', fromlist=['x']).proxy_rejected(e)
         return None, out, e
 
 
